@@ -79,9 +79,17 @@ IdsOf(rs) == {r.id.r : r \in rs}
 
 \* INSERT INTO t (all columns) VALUES (..): the columns in ph are slots, the others take Base's literals
 InsertRow(ph, sv) == [c \in ColSet |-> LET j == IndexOf(ph, c, 1) IN IF j = 0 THEN Base[c] ELSE sv[j]]
-ExecInsert(st, sv, rs) == LET row == InsertRow(st.ph, sv) after == rs \cup {row}
-                          IN IF row \notin rs /\ Cardinality(after) = Cardinality(rs) + 1 /\ TableOk(after) /\ (\A r \in rs : r.id # row.id)
-                               THEN Res(TRUE, 1, {}, after) ELSE Res(FALSE, 0, {}, rs)
+InsertOne(row, rs) == LET after == rs \cup {row}
+                      IN IF row \notin rs /\ Cardinality(after) = Cardinality(rs) + 1 /\ TableOk(after) /\ (\A r \in rs : r.id # row.id)
+                           THEN Res(TRUE, 1, {}, after) ELSE Res(FALSE, 0, {}, rs)
+\* VALUES (..), (..), ..: st.nrows tuples of Len(st.ph) slots each, numbered on in textual order ACROSS the tuples; the rows
+\* are inserted one after the other and the statement is atomic (one refused row refuses the statement)
+RECURSIVE InsertFrom(_, _, _, _)
+InsertFrom(st, sv, rs, k) == IF k > st.nrows THEN Res(TRUE, st.nrows, {}, rs)
+                             ELSE LET w == Len(st.ph)
+                                      one == InsertOne(InsertRow(st.ph, SubSeq(sv, (k - 1) * w + 1, k * w)), rs)
+                                  IN IF one.ok THEN InsertFrom(st, sv, one.rows, k + 1) ELSE one
+ExecInsert(st, sv, rs) == LET r == InsertFrom(st, sv, rs, 1) IN IF r.ok THEN r ELSE Res(FALSE, 0, {}, rs)
 \* UPDATE t SET c = sv[1] WHERE c2 = sv[2]
 ExecUpdate(st, sv, rs) == LET hit == {r \in rs : EqV(r[st.wh], sv[2])}
                               img == {[r EXCEPT ![st.set] = sv[1]] : r \in hit}
@@ -123,10 +131,11 @@ FormOk(form, sv) == /\ (form = "rep") => (Len(sv) >= 2 /\ \A j \in 1..Len(sv) : 
 ExecP(st, form, ps, rs) == Exec(st, Subst(form, ps, st.nslots), rs)
 
 (* ------------------------------------------------------------------ templates and the slot values explored for each *)
-Ins(ph) == [kind |-> "insert", ph |-> ph, nslots |-> Len(ph), set |-> "-", wh |-> "-"]
-Upd(c, c2) == [kind |-> "update", ph |-> <<>>, nslots |-> 2, set |-> c, wh |-> c2]
-Del(c) == [kind |-> "delete", ph |-> <<>>, nslots |-> 1, set |-> "-", wh |-> c]
-Sel(kind, c, n) == [kind |-> kind, ph |-> <<>>, nslots |-> n, set |-> "-", wh |-> c]
+Ins(ph) == [kind |-> "insert", ph |-> ph, nslots |-> Len(ph), set |-> "-", wh |-> "-", nrows |-> 1]
+InsN(ph, n) == [kind |-> "insert", ph |-> ph, nslots |-> n * Len(ph), set |-> "-", wh |-> "-", nrows |-> n]
+Upd(c, c2) == [kind |-> "update", ph |-> <<>>, nslots |-> 2, set |-> c, wh |-> c2, nrows |-> 0]
+Del(c) == [kind |-> "delete", ph |-> <<>>, nslots |-> 1, set |-> "-", wh |-> c, nrows |-> 0]
+Sel(kind, c, n) == [kind |-> kind, ph |-> <<>>, nslots |-> n, set |-> "-", wh |-> c, nrows |-> 0]
 
 BaseSeq(ph) == [j \in 1..Len(ph) |-> Base[ph[j]]]
 Perm == <<"u", "id", "d", "k", "s", "b", "f">>
@@ -142,6 +151,11 @@ InsertCases ==
         \cup {<<Ins(three), <<i, u, s>> >> : i \in {IntV(2), IntV(4)}, u \in {IntV(20), IntV(30), Null}, s \in {TextV("p_sqlish"), TextV("p_its"), Null}}
         \cup {<<Ins(<<"id", "u">>), <<IntV(4), IntV(4)>> >>, <<Ins(<<"u", "k">>), <<IntV(7), IntV(7)>> >>}    \* equal values: the "rep" form
         \* the column list in another order than the table's: INSERT INTO t (u, id, d, ..) VALUES (?, ?, ?, ..)
+        \* several VALUES tuples in one statement: the placeholders run on across the tuples
+        \cup {<<InsN(<<"id", "u", "s">>, 2), <<IntV(4), u1, TextV("p_sqlish"), i2, u2, s2>> >> :
+                   u1 \in {IntV(30), Null}, i2 \in {IntV(5), IntV(4), IntV(2)}, u2 \in {IntV(40), IntV(30), Null}, s2 \in {TextV("p_its"), Null}}
+        \cup {<<InsN(<<"id">>, 3), <<IntV(4), IntV(5), i3>> >> : i3 \in {IntV(6), IntV(5), IntV(1)}}
+        \cup {<<InsN(<<"id", "k">>, 2), <<IntV(7), IntV(7), IntV(7), IntV(7)>> >>}          \* equal values: the "rep" form (refused: same id twice)
         \cup {<<Ins(Perm), BaseSeq(Perm)>>, <<Ins(Perm), [BaseSeq(Perm) EXCEPT ![1] = IntV(20)]>>, <<Ins(Perm), [BaseSeq(Perm) EXCEPT ![2] = IntV(30)]>>}
 
 SetCols == {"u", "k", "s", "f", "d", "b"}
@@ -176,6 +190,7 @@ Kinds == {"insert", "update", "delete", "sel_eq", "sel_in", "sel_between", "sel_
 CasesOf(k) == CASE k = "insert" -> InsertCases [] k = "update" -> UpdateCases [] k = "delete" -> DeleteCases [] k = "sel_eq" -> SelEqCases
                 [] k = "sel_in" -> SelInCases [] k = "sel_between" -> SelBetweenCases [] k = "sel_limit" -> SelLimitCases
 NoCase == <<Sel("none", "-", 0), <<>> >>
+MultiRowInsertExplored == \E c \in InsertCases : c[1].nrows > 1
 \* one initial state per (kind, form) so that TLC's workers share the enumeration; the case is chosen by the step
 Init == /\ kind \in Kinds /\ form \in Forms /\ cas = NoCase /\ done = FALSE
 Next == /\ done = FALSE /\ done' = TRUE
